@@ -376,6 +376,7 @@ pub fn run_main(args: &[String]) -> i32 {
         if let Some(d) = deadline_s {
             c.args(["--deadline-s", &d.saturating_sub(t0.elapsed().as_secs()).to_string()]);
         }
+        c.env("SIMCHECK_SCRATCH", &scratch);
         c.stdout(Stdio::inherit()).stderr(Stdio::null());
         Child { proc: c.spawn().expect("spawn worker"), out, k, gen, last_cur: String::new(), last_change: Instant::now() }
     };
